@@ -233,19 +233,35 @@ end serve
 /-! ### the concrete device of the differential runs: a refused write leaves every tag as it was -/
 
 /-- **refused ⇒ tags and access log untouched, for every request (write, multiple, …)** -/
-theorem refused_tags_untouched (cfg : Config) (d : Dev) (rp : Option RoutePath) (req : Req)
+theorem refused_tags_untouched (cfg : Config) (d : Dev) (rp : Option RoutePath) (toCM : Bool) (req : Req)
     (h : accept cfg rp = false) :
-    (serve cfg d rp req).1 = d ∧ (serve cfg d rp req).2.status = 8 ∧ (serve cfg d rp req).2.payload = none := by
+    (serve cfg d rp toCM req).1 = d ∧ (serve cfg d rp toCM req).2.status = 8
+      ∧ (serve cfg d rp toCM req).2.payload = none := by
   unfold serve
   rw [refused_no_access _ cfg d _ _ h]
   simp
 
 /-- non-vacuity: the same write is performed when the route path matches and is not when it differs -/
 example :
-    (serve (.path [.pl 1 (.num 0)]) ⟨[[1, 2, 3, 4], [10, 20]], []⟩ (some [.pl 1 (.num 0)])
+    (serve (.path [.pl 1 (.num 0)]) ⟨[[1, 2, 3, 4], [10, 20]], []⟩ (some [.pl 1 (.num 0)]) true
       (.single (.write 0 1 [77]))).1.tags = [[1, 77, 3, 4], [10, 20]]
-    ∧ (serve (.path [.pl 1 (.num 0)]) ⟨[[1, 2, 3, 4], [10, 20]], []⟩ (some [.pl 1 (.num 1)])
+    ∧ (serve (.path [.pl 1 (.num 0)]) ⟨[[1, 2, 3, 4], [10, 20]], []⟩ (some [.pl 1 (.num 1)]) true
       (.single (.write 0 1 [77]))).1 = ⟨[[1, 2, 3, 4], [10, 20]], []⟩ := by decide
+
+/-- an Unconnected Send that does not address a Connection Manager is not executed either, whatever
+the personality and the route path (repo fix 080c990): error status, tags and access log untouched -/
+theorem not_to_cm_untouched (cfg : Config) (d : Dev) (rp : Option RoutePath) (req : Req) :
+    (serve cfg d rp false req).1 = d ∧ (serve cfg d rp false req).2.status = 8
+      ∧ (serve cfg d rp false req).2.payload = none := by
+  unfold serve serveWith
+  cases accept cfg rp <;> simp [execFrame]
+
+/-- an unknown tag, when the route path is acceptable, is *answered* (status 0, a CIP error inside) and
+the session goes on (repo fix e94e54f); when it is not acceptable the frame is refused like any other -/
+example :
+    (serve .falsy ⟨[[1, 2, 3, 4], [10, 20]], []⟩ (some []) true (.single (.unknown false))).2.status = 0
+    ∧ (serve .falsy ⟨[[1, 2, 3, 4], [10, 20]], []⟩ (some [.pl 1 (.num 0)]) true (.single (.unknown false))).2.status = 8 := by
+  decide
 
 /-! ## Textual route paths denote the segments they spell -/
 
@@ -361,6 +377,7 @@ theorem client_simple_always_accepted (s : SendArg) (cfg : Config) :
   cases s with
   | dflt => exact ⟨some [], rfl, (accept_spec cfg _).mpr (Or.inr (Or.inr (Or.inl rfl)))⟩
   | empty => exact ⟨none, rfl, (accept_spec cfg _).mpr (Or.inr (Or.inl rfl))⟩
+  | other => exact ⟨some [], rfl, (accept_spec cfg _).mpr (Or.inr (Or.inr (Or.inl rfl)))⟩
 
 /-- a client spelling a route path carries exactly those segments … -/
 theorem client_carries_spelled (segs : List Seg) (hne : segs ≠ []) (hwf : ∀ s ∈ segs, s.WF) :
